@@ -183,6 +183,14 @@ Theorem C08_getfunc_writeback_statement_refuted :
 Proof. exact getfunc_writeback_not_ok. Qed.
 Print Assumptions C08_getfunc_writeback_statement_refuted.
 
+(** region case-lazy-reftype: the faithful outcome model accepts a race report on the type cache, Go has none. *)
+Theorem C08_case_lazy_reftype_refuted :
+  let p := mkparams TOpsLazy 2 3 5 7 in
+  let o := mkobs true (g_expected p) false false true false in
+  y_accepts PerExec false p o = true /\ g_accepts p o = false.
+Proof. split; vm_compute; reflexivity. Qed.
+Print Assumptions C08_case_lazy_reftype_refuted.
+
 (** second finding (sequential, shows in a concurrent template): the operand expression of a send clause
     is not evaluated; the faithful outcome model differs from Go's closed form. *)
 Theorem C08_select_send_expr_refuted :
